@@ -37,6 +37,9 @@ class Unsupported(Exception):
     """An SQL / VTL construct the encoder does not know: the template is reported as not encoded."""
 
 
+FIELDED = ("struct", "tp")     # kinds whose value is a dict of field SVs
+
+
 def default_val(kind):
     if kind in ("int", "date"):
         return z3.IntVal(0)
@@ -85,7 +88,7 @@ def as_kind(sv, kind):
     if sv.kind == kind:
         return sv
     if sv.kind == "null":
-        if kind == "struct":
+        if kind in FIELDED:
             return sv
         return SV(kind, TRUE, default_val(kind))
     if sv.kind == "int" and kind == "real":
@@ -112,8 +115,12 @@ def unify(a, b):
     elif b.kind not in ("null", "struct") and z3.is_true(b.null) and a.kind != "null":
         b = SV("null", TRUE, None, dc=b.dc)
     if a.kind == "null":
+        if b.kind in FIELDED:
+            return SV(b.kind, TRUE, None, None), b, b.kind
         return as_kind(a, b.kind), b, b.kind
     if b.kind == "null":
+        if a.kind in FIELDED:
+            return a, SV(a.kind, TRUE, None, None), a.kind
         return a, as_kind(b, a.kind), a.kind
     if {a.kind, b.kind} == {"int", "real"}:
         return as_kind(a, "real"), as_kind(b, "real"), "real"
@@ -125,14 +132,12 @@ def ite(c, a, b):
     a, b, k = unify(a, b)
     if k == "null":
         return a
-    if k == "struct":
+    if k in FIELDED:
         if a.fields is None or b.fields is None:
-            # one side is an untyped NULL
+            # one side is an untyped NULL: take the other side's fields
             src = a if a.fields is not None else b
-            other_null = a.null if a.fields is None else b.null
-            f = {n: ite(c, src.fields[n], src.fields[n]) for n in src.fields}
-            return SV("struct", z3.If(c, a.null, b.null), None, f)
-        return SV("struct", z3.If(c, a.null, b.null), None, {n: ite(c, a.fields[n], b.fields[n]) for n in a.fields})
+            return SV(k, z3.If(c, a.null, b.null), None, dict(src.fields))
+        return SV(k, z3.If(c, a.null, b.null), None, {n: ite(c, a.fields[n], b.fields[n]) for n in a.fields})
     return SV(k, z3.If(c, a.null, b.null), z3.If(c, a.val, b.val))
 
 
@@ -147,7 +152,7 @@ def same(a, b):
     a, b, k = unify(a, b)
     if k == "null":
         return TRUE
-    if k == "struct":
+    if k in FIELDED:
         if a.fields is None or b.fields is None:
             return z3.And(a.null, b.null)
         return z3.Or(z3.And(a.null, b.null),
@@ -223,7 +228,7 @@ class Ctx:
 
 
 KIND_OF_TYPE = {"Integer": "int", "Number": "real", "String": "str", "Boolean": "bool", "Date": "date",
-                "Time_Period": "str", "TimePeriod": "str", "Time": "str", "TimeInterval": "str", "Duration": "str"}
+                "Time_Period": "tp", "TimePeriod": "tp", "Time": "str", "TimeInterval": "str", "Duration": "str"}
 
 
 def make_input(ctx, name, comps, nrows, str_alphabet=None, int_bound=None, str_maxlen=3):
@@ -239,14 +244,29 @@ def make_input(ctx, name, comps, nrows, str_alphabet=None, int_bound=None, str_m
         cols = {}
         for cn, ty, role, nullable in comps:
             k = KIND_OF_TYPE[ty]
-            v = z3.Const("%s.%s.%d" % (name, cn, i), SORTS[k]())
-            ctx.input_vars.append(v)
             if role == "Identifier" or not nullable:
                 nl = FALSE
             else:
                 nl = z3.Bool("%s.%s.%d.null" % (name, cn, i))
                 ctx.input_vars.append(nl)
+            if k == "tp":
+                from vt.sqlsmt import timeeval as TE
+                y = z3.Int("%s.%s.%d.year" % (name, cn, i))
+                ind = z3.String("%s.%s.%d.ind" % (name, cn, i))
+                num = z3.Int("%s.%s.%d.num" % (name, cn, i))
+                ctx.input_vars += [y, ind, num]
+                ymin, ymax = getattr(ctx, "year_range", (1900, 2100))
+                ctx.assume.append(TE.valid_tp(y, ind, num, ymin, ymax))
+                cols[cn] = TE.tp_sv(y, ind, num, nl)
+                continue
+            v = z3.Const("%s.%s.%d" % (name, cn, i), SORTS[k]())
+            ctx.input_vars.append(v)
             cols[cn] = SV(k, nl, v)
+            if k == "date":
+                ymin, ymax = getattr(ctx, "year_range", (1900, 2100))
+                from vt.sqlsmt import cal as _cal
+                ctx.assume.append(z3.And(v >= _cal.jan1(z3.IntVal(ymin)), v < _cal.jan1(z3.IntVal(ymax + 1))))
+                continue
             if k == "int" and int_bound is not None:
                 ctx.assume.append(z3.And(v >= -int_bound, v <= int_bound))
             if k == "real" and int_bound is not None:
@@ -255,15 +275,13 @@ def make_input(ctx, name, comps, nrows, str_alphabet=None, int_bound=None, str_m
                 alpha = str_alphabet or ("a", "c")
                 ctx.assume.append(z3.InRe(v, z3.Star(z3.Range(alpha[0], alpha[1]))))
                 ctx.assume.append(z3.Length(v) <= str_maxlen)
-            if k == "date":
-                ctx.assume.append(z3.And(v >= 0, v <= 200000))
         rows.append(Row(p, cols, [o]))
     ids = [cn for cn, ty, role, nl in comps if role == "Identifier"]
     for a, b in itertools.combinations(range(nrows), 2):
         ctx.assume.append(rows[a].ord[0] != rows[b].ord[0])
         if ids:
             ctx.assume.append(z3.Implies(z3.And(rows[a].present, rows[b].present),
-                                         z3.Not(z3.And(*[rows[a].cols[c].val == rows[b].cols[c].val for c in ids]))))
+                                         z3.Not(z3.And(*[same(rows[a].cols[c], rows[b].cols[c]) for c in ids]))))
         else:
             ctx.assume.append(z3.Not(z3.And(rows[a].present, rows[b].present)))
     t = Table([c[0] for c in comps], rows, name)
